@@ -174,6 +174,14 @@ func spec_userAction(r int, dollarDolar *StateSym, Dollar []StateSym)
 //@ loop 0: invariant INV(StateSymStack, StackPointer)
 //@ loop 0: invariant 0 <= lookAhead && lookAhead <= spec_nT()
 //@ loop 0: use L_stack(StateSymStack, StackPointer)
+// the only state a parse leaves behind is the stack, the stack pointer (of its own context in object mode) and the trace log:
+// no other package variable and no other field of the context is written
+//@ modifies StateSymStack, StackPointer, tlen, StateSym.Yystate, StateSym.ValType
+//@ allocates StateSym
+//@ allocates arrays
+// every parse starts reading ITS input at offset 0 with an empty token value: the lexer position and the value buffer are
+// locals of this call, not state that survives a parse (C15)
+//@ before_stmt [C15,C08] "lookAhead := fetchLookAhead(input, &val, &currentPos)" currentPos == 0 && val == ValType{}
 // the action consulted is the table entry of (top state, lookahead) (C01, C05, C08)
 //@ after_stmt [C01,C08] "a := s.Action(lookAhead)" a == spec_T(StateSymStack[StackPointer-1].Yystate, lookAhead)
 // a shift happens only on a cell that is a transition of the automaton - never on an error entry (C06)
@@ -365,6 +373,7 @@ func spec_userAction(r int, dollarDolar *StateSym, Dollar []StateSym)
 //@ results v
 //@ use SIZES, AP0, AP1, AP2, TC, TCgoto, TC0
 //@ requires INVp(StateSymStack, StackPointer) && tablesOK()
+//@ before_stmt [C15,C08] "lookAhead := fetchLookAhead(input, model)" model.pos == 0 && model.ValType == nil
 //@ loop 0: invariant INVp(StateSymStack, StackPointer) && model != nil
 //@ loop 0: invariant 0 <= lookAhead && lookAhead <= spec_nT()
 //@ loop 0: use L_stackp(StateSymStack, StackPointer)
